@@ -18,7 +18,7 @@ EXPLANATION = (
 ASSUMPTIONS = ["at most one task joins a given pika::thread at a time (API contract)",
                "thread::start_thread is only called from constructors (id_ written before the handle is shared)"]
 THOROUGH_CONFIGS = [["-UNDEBUG", "-DPIKA_DEBUG"]]
-FLOORS = {"C13.R1": 4, "C13.R2": 3, "C13.R3": 6, "C13.R4": 7, "C13.R5": 2, "C13.R6": 4, "C13.R7": 5, "C13.R8": 4, "C13.R9": 2, "C13.R10": 3, "C13.R11": 3}
+FLOORS = {"C13.R1": 4, "C13.R2": 3, "C13.R3": 6, "C13.R4": 7, "C13.R5": 2, "C13.R6": 4, "C13.R7": 5, "C13.R8": 4, "C13.R9": 2, "C13.R10": 3, "C13.R11": 3, "C13.R12": 3}
 
 TD = "pika::threads::detail::thread_data"
 
@@ -443,6 +443,35 @@ def run(rep, tier):
             rep.ok("C13.R11", f, "%s (noexcept) contains no interruption point" % f.qname)
     if n11 < 3:
         raise AnalysisBroken("C13.R11: only %d noexcept functions found in thread.cpp" % n11)
+
+    # ---- R12: a thread handle gets the id of its thread
+    rep.rule("C13.R12", "K8 (every scheduler behind pika::thread): the constructor of pika::thread asks the scheduler to create the thread object at once (thread_init_data::run_now) "
+             "and keeps the id that comes back; a scheduler's create_thread that switches run_now off stages a task description instead and hands back no id - the handle is "
+             "not joinable, join() cannot wait for the thread. No create_thread of a scheduling policy writes data.run_now = false on a path where the caller asked for the id")
+    SC12 = facts(rep, lib("thread_pools", "src/scheduled_thread_pool.cpp"), [r"scheduler::create_thread$"])
+    n12 = 0
+    for fn in SC12.fns:
+        if fn.pattern or fn.parent != -1 or not fn.qname.endswith("scheduler::create_thread"):
+            continue
+        n12 += 1
+        idp = [p_["name"] for p_ in fn.params if "thread_id_ref" in (p_.get("type") or "") and "*" in (p_.get("type") or "")]
+        ff12 = FactFlow(fn, eh=False)
+        offs = [(b, i, e) for b, i, e in fn.all_events() if e.get("k") == "write" and P(e["lhs"]).endswith(".run_now") and T(strip(e.get("rhs"))) in ("false", "0")]
+        bad12 = None
+        for b, i, e in offs:
+            fb = ff12.before.get((b, i)) or frozenset()
+            no_id_wanted = idp and any((a in (idp[0], "nullptr != " + idp[0], idp[0] + " != nullptr") and t is False) or (a in ("nullptr == " + idp[0], idp[0] + " == nullptr") and t is True) for a, t in fb)
+            if not no_id_wanted:
+                bad12 = (b, i, e)
+        sched12 = fn.qname.rsplit("::", 2)[-2]
+        if bad12:
+            rep.bad("C13.R12", fn, loc_of(bad12[2]), "run-now-cleared:" + sched12, "%s::create_thread switches data.run_now off although the caller may have asked for the new thread's id: the thread is "
+                    "staged as a task description and no id is handed back - a pika::thread constructed on this scheduler is not joinable (join() cannot wait for it, the thread runs "
+                    "detached)" % sched12)
+        else:
+            rep.ok("C13.R12", fn, "%s::create_thread leaves run_now as the caller set it" % sched12)
+    if n12 < 3:
+        raise AnalysisBroken("C13.R12: only %d scheduler create_thread functions found" % n12)
 
     # ---- R6
     exempt6 = {"start_thread": "called from constructors only, before the handle is shared",
